@@ -4,7 +4,7 @@
    panic (extend), the pre-state itself (entry_ref).  No axioms. *)
 From Coq Require Import ZArith List Bool Lia Permutation.
 From HB Require Import RsPrelude Sse2 Gen Group Raw Map Check AssocSpec ArithFacts WFDefs RawOpsSafe RawOpsWF
-  MapDefs AssocFacts MapRefineBase MapStepRefine PanicOps2.
+  MapDefs AssocFacts MapRefineBase MapStepRefine Replace ReplaceFacts PanicOps2.
 Import ListNotations.
 Open Scope Z_scope.
 
@@ -86,9 +86,53 @@ Section PanicFacts2.
     destruct (m_entry_ok B HW HB tsize talign hash_of Htot t s k occ (fun _ => Ok (t, OutUnwind, [])) HI) as (hv & _ & Hc).
     rewrite Hl in Hc. destruct Hc as (i & _ & Hi & Hs & _ & Hc). exists hv, i. split; [exact Hi|]. split; [exact Hs|exact Hc].
   Qed.
+  (* a panicking closure in replace_entry_with / and_replace_entry_with: on a present key the entry
+     is gone (removed by replace_bucket_with before the closure ran; dropped exactly once by the
+     unwinding), everything else is as before; on an absent key the closure never runs *)
+  Theorem entry_replace_p_refines t s k t' o evs :
+    INV t s -> m_entry_replace_p B needs_drop hash_of t k = Ok (t', o, evs) ->
+    match lookup s k with
+    | Some e => o = OutUnwind /\ INV t' (delete s k) /\ evs = (if needs_drop then [EvDrop e] else [])
+    | None => o = OutNone /\ t' = t /\ evs = []
+    end.
+  Proof.
+    intros HI E. unfold m_entry_replace_p in E.
+    match type of E with m_entry _ _ _ _ ?occ ?vac = _ =>
+      destruct (m_entry_ok B HW HB tsize talign hash_of Htot t s k occ vac HI) as (hv & _ & Hc) end.
+    destruct (lookup s k) as [e|] eqn:El.
+    - destruct Hc as (i & Hm & Hi & He & Hk & Ee). rewrite Ee in E. clear Ee.
+      pose proof HI as ((Hs & _) & _ & _).
+      rewrite (replace_none_eq_remove B kv HW t i (fun _ => None) e Hs Hm Hi (slot_full B t i e Hs Hm Hi He) He eq_refl) in E.
+      destruct (remove_ok B HW HB tsize talign hash_of t s i e HI Hm Hi He) as (t1 & Er & HI1).
+      rewrite Er in E. cbn [bind] in E. injection E as <- <- <-. rewrite Hk in HI1.
+      split; [reflexivity|]. split; [exact HI1|reflexivity].
+    - rewrite Hc in E. injection E as <- <- <-. repeat split.
+  Qed.
+
+  (* and_modify(f).or_insert(v) with an f that panics before writing: untouched on a present key;
+     on an absent key f never runs and the insertion happens as usual *)
+  Theorem entry_and_modify_p_refines t s k stamp v t' o evs :
+    INV t s ->
+    m_entry_and_modify_p B tsize talign needs_drop true hash_of alloc_refuses t k stamp v = Ok (t', o, evs) ->
+    match lookup s k with
+    | Some _ => o = OutUnwind /\ t' = t /\ evs = []
+    | None => o = OutVal v /\ INV t' (put s (mkKV k stamp v))
+    end.
+  Proof.
+    intros HI E. unfold m_entry_and_modify_p in E.
+    match type of E with m_entry _ _ _ _ ?occ ?vac = _ =>
+      destruct (m_entry_ok B HW HB tsize talign hash_of Htot t s k occ vac HI) as (hv & Hh & Hc) end.
+    destruct (lookup s k) as [e|] eqn:El.
+    - destruct Hc as (i & _ & _ & _ & _ & Ee). rewrite Ee in E. injection E as <- <- <-. repeat split.
+    - rewrite Hc in E.
+      exact (vacant_insert_ok B HW HB tsize talign HL needs_drop hash_of Htot alloc_refuses t s hv (mkKV k stamp v)
+               (OutVal v) t' o evs HI Hh El E).
+  Qed.
 End PanicFacts2.
 
 Print Assumptions extend_p_refines.
 Print Assumptions extend_p_keeps_old.
 Print Assumptions entry_ref_into_p_unchanged.
 Print Assumptions entry_ref_into_p_occupied.
+Print Assumptions entry_replace_p_refines.
+Print Assumptions entry_and_modify_p_refines.
